@@ -1070,7 +1070,8 @@ MANIFEST_ENTRY = {
              'grid=False route, scalar shape, diameter=): x[i,j] = (j - n//2) dx whatever i and m, y[i,j] = (i - m//2) dx whatever '
              'j and n, zero exactly on column n//2 / row m//2 (and only there when dx != 0); '
              '(3) forward_ft_unit, composed of the constants of NumPy\'s own fftfreq / fftshift source (also translated): sample i '
-             'is i - n//2 (shift=True), zero at index 0 and FFT order for shift=False; '
+             'is i - n//2 (shift=True), zero at index 0 and FFT order for shift=False; the shift pair of propagation.focus / '
+             'unfocus brings sample n//2 to FFT index 0 and the zero-frequency bin back to n//2 for odd and even n; '
              '(4) pad2d (np.pad widths and constant-mode slice) and crop_center: the origin sample lands on the origin of the new '
              'array, the block stays in bounds, widths are non-negative, an integer out_shape means every axis, crop undoes pad '
              'sample for sample in 1-D and in 2-D with per-axis different targets, default length is ceil(n Q); '
@@ -1088,7 +1089,7 @@ MANIFEST_ENTRY = {
              'up to 40 (quick) / 128 (thorough); integer / list / tuple out_shape, Q = 1 with out_shape, int64 / float32 / '
              'complex128 data, transposed and strided inputs up to 10 / 20; grids, frequency axes up to 130 / 600; RichData.x / .y '
              '/ slices and centroids (spatial and pixels) up to 9x9 / 14x14; Wavefront return objects (identity, dx, wavelength, '
-             'space); focus / unfocus FFT route up to 11x11 / 23x23; requests that shrink an axis through pad2d raise ValueError '
+             'space); the FFT itself on the focus / unfocus route up to 11x11 / 23x23; requests that shrink an axis through pad2d raise ValueError '
              '(all shapes up to 5 / 7); re-requested grids after in-place edits of earlier results; array centres written as '
              'ceil(n/2) in segmented.py / x/shack_hartmann.py and the shift pairs of interferogram.psd / '
              'synthesize_surface_from_psd still centre on n//2 for odd sizes (7 shapes / up to 9x9). '
